@@ -291,6 +291,11 @@ def check_tref(ctx):
     none_ = [s for s in bm if A.const_value(s.value) in (0, 0.0)]
     okf = bool(none_) and "+t_ref is False" in A.term_strings(A.path_condition(none_[0], init))
     ctx.check(R, init, "t_ref=False disables the reference epoch", okf, "the zero epoch is not tied to `t_ref is False`", key="false", nontrivial=False)
+    check_phase(ctx, R)
+
+
+def check_phase(ctx, R):
+    """RVData.phase returns ((t - t_ref) / P) mod 1, i.e. a number in [0, 1) also for epochs before t_ref (shared with C19-WRAP)"""
     ph = ctx.prog.func(DT, "RVData.phase", R)
     fl = A.Flow(ph)
     okp = bool(fl.returns)
@@ -310,7 +315,16 @@ def check_copy(ctx):
     ctx.rule(R, "__copy__ forwards every piece of constructor state (t, rv, rv_err, t_ref; a disabled t_ref stays disabled); copy() is __copy__ (arguments resolved through temporaries).")
     fn = ctx.prog.func(DT, "RVData.__copy__", R)
     flow = A.Flow(fn)
-    calls = [v for v, s in flow.returns if isinstance(v, ast.Call) and canon(v.func) == "self.__class__"]
+    calls = [v for v, s in flow.returns if isinstance(v, ast.Call) and canon(v.func) in ("self.__class__", "RVData", "type(self)")]
+    via = [v for v, s in flow.returns if isinstance(v, ast.Subscript) and canon(v.value) == "self"]
+    if not calls and via:
+        # a copy spelled as a slice of itself: the object is rebuilt by __getitem__, which must then hand over the whole constructor state
+        gi = ctx.prog.func(DT, "RVData.__getitem__", R)
+        gcalls = [c_ for c_ in A.calls_in(gi) if canon(c_.func) in ("self.__class__", "RVData", "type(self)")]
+        bad = [c_ for c_ in gcalls if not all(tref_preserved(A.get_arg(c_, None, "t_ref")))]
+        ctx.check(R, fn, "copy forwards t_ref", bool(gcalls) and not bad,
+                  "the copy is `%s`: __getitem__ rebuilds the object without t_ref, so the copy silently takes the earliest time as its reference epoch (and a disabled epoch is re-enabled)" % A.unparse(via[0]), key="copy:t_ref")
+        return
     if len(calls) != 1:
         ctx.undecided(R, fn, "constructor call", "expected one `return self.__class__(...)`")
         return
